@@ -260,6 +260,8 @@ class Interp:
         self.types = dict(types or {})          # term key -> ClassInfo
         self.no_inline = set(no_inline)         # short quals never inlined
         self._assign_trackers = []
+        self._with_hooks = {}
+        self._with_fired = set()
         self._plain_loops = set()
         self.quantity_plain = quantity_plain
         self.expansions = expansions            # ClassExpansions or None
@@ -428,6 +430,18 @@ class Interp:
         if isinstance(st.value, (ast.Yield, ast.YieldFrom)):
             v = self.ev(st.value.value, fr) if st.value.value is not None else NONE
             fr.yields.append(v)
+            hook = self._with_hooks.get(id(fr.fi.node))
+            if hook is not None and isinstance(st.value, ast.Yield):
+                # @contextmanager: the body of the `with` statement runs here, in the frame of the function that wrote it
+                caller_fr, wst, item = hook
+                self._with_fired.add(id(item))
+                if item.optional_vars is not None:
+                    self.assign(item.optional_vars, v, caller_fr, wst, quiet=True)
+                self.frames.append(caller_fr)
+                try:
+                    return self._with_items(wst, caller_fr, wst.items.index(item) + 1)
+                finally:
+                    self.frames.pop()
             self.emit('yield', st, fr, value=v)
             return TRUE
         self.ev(st.value, fr)
@@ -913,7 +927,20 @@ class Interp:
                 if len(args) == 3:
                     return T.mk_call('ceil', [(args[1] - args[0]) / args[2]])
             if fn in ('enumerate', 'items', 'keys', 'values', 'readlines') and args:
-                return T.mk_call('len', [args[0]])
+                return self._trip(args[0]) if fn == 'enumerate' else T.mk_call('len', [args[0]])
+            if fn == 'zip' and args and not kw:
+                ts = [self._trip(a) for a in args]
+                out = ts[0]
+                for t_ in ts[1:]:
+                    out = T.mk_call('min', [out, t_])
+                return out
+        if at is not None and at.kind == 'sub':
+            # len(X[a:]) == len(X) - a   (the clamp at zero is not modelled, as for range(a, n))
+            sl = at.args[1].single_atom()
+            if sl is not None and sl.kind == 'slice' and T._isnone(sl.args[1]) and T._isnone(sl.args[2]):
+                a0 = sl.args[0].const()
+                if a0 is not None and a0 >= 0:
+                    return self._trip(at.args[0]) - sl.args[0]
         if at is not None and at.kind in ('tuple', 'list'):
             return Term.num(len(at.args))
         return T.mk_call('len', [it])
@@ -977,7 +1004,12 @@ class Interp:
                 return Term.of(Atom('idx', cid))
             return None
         elt = T.subst(v, fn)
-        return Term.of(Atom('comp', 'list', elt, (T.mk_tuple([info['iter']]),)))
+        it_ = info['iter']
+        ia_ = it_.single_atom()
+        if ia_ is not None and ia_.kind == 'call' and ia_.args[0] in ('zip', 'enumerate', 'range') and not any(
+                a_.kind in ('elem', 'key') and a_.args and a_.args[-1] == cid for a_ in T.all_atoms(elt).values()):
+            it_ = T.mk_call('range', [self._trip(it_)])        # position-only element: see sva_expr._comp
+        return Term.of(Atom('comp', 'list', elt, (T.mk_tuple([it_]),)))
 
     def _accumulator(self, loop, name, info, init, fr):
         """`x += c` once, unconditionally, at the top level of a for body, c loop-invariant:
@@ -1010,11 +1042,66 @@ class Interp:
         return init + c * info['trip']
 
     def st_With(self, st, fr):
-        for item in st.items:
+        return self._with_items(st, fr, 0)
+
+    def _with_items(self, st, fr, k):
+        for j in range(k, len(st.items)):
+            item = st.items[j]
+            cm = self._context_manager_function(item.context_expr, fr)
+            if cm is not None:
+                # with f(...) as x: BODY   where f is a @contextmanager generator with one `yield v`:
+                #   f's statements before the yield; x = v; BODY; f's statements after the yield (its try/finally included)
+                old = self._with_hooks.get(id(cm.node))
+                self._with_hooks[id(cm.node)] = (fr, st, item)
+                nret = len(fr.returns)
+                self._with_fired.discard(id(item))
+                try:
+                    v = self.ev(item.context_expr, fr)
+                finally:
+                    if old is None:
+                        self._with_hooks.pop(id(cm.node), None)
+                    else:
+                        self._with_hooks[id(cm.node)] = old
+                if id(item) not in self._with_fired:
+                    # the manager was not analysed (kept opaque): the body runs with an opaque context value
+                    if item.optional_vars is not None:
+                        self.assign(item.optional_vars, v, fr, st, quiet=True)
+                    continue
+                # control continues after the `with` unless the body left the function on every path
+                if len(fr.returns) > nret and all(c.key == TRUE.key for c, _ in fr.returns[nret:]):
+                    return FALSE
+                return TRUE
             v = self.ev(item.context_expr, fr)
             if item.optional_vars is not None:
                 self.assign(item.optional_vars, v, fr, st, quiet=True)
         return self.exec_block(st.body, fr)
+
+    def _context_manager_function(self, expr, fr):
+        if not isinstance(expr, ast.Call):
+            return None
+        from .argbind import resolve_callee
+        try:
+            rc = resolve_callee(self.prog, fr.fi, expr)
+        except Exception:
+            rc = None
+        if rc is None:
+            return None
+        fi = rc[0]
+        if not isinstance(fi.node, ast.FunctionDef) or any(f.fi is fi for f in self.frames):
+            return None
+        deco = [ast.unparse(d) for d in fi.node.decorator_list]
+        if not any(d.split('.')[-1] == 'contextmanager' for d in deco):
+            return None
+        ys = [n for n in ast.walk(fi.node) if isinstance(n, (ast.Yield, ast.YieldFrom))]
+        if len(ys) != 1 or not isinstance(ys[0], ast.Yield):
+            return None
+        # the single yield is an expression statement (not `x = yield`), outside any loop
+        for n in ast.walk(fi.node):
+            if isinstance(n, (ast.For, ast.While)) and any(y is ys[0] for y in ast.walk(n)):
+                return None
+        if not any(isinstance(n, ast.Expr) and n.value is ys[0] for n in ast.walk(fi.node)):
+            return None
+        return fi
 
     def st_Try(self, st, fr):
         tid = f'T{st.lineno}'
